@@ -4,5 +4,5 @@ patch=$1; shift
 d=/var/tmp/kv/mut-$$
 mkdir -p $d && rsync -a --delete /repo/src $d/ && (cd $d && patch -s -p1 < $patch) || { echo "patch failed"; rm -rf $d; exit 2; }
 rc=0
-for p in "$@"; do VX_REPO=$d /verif/vx check $p | grep -E "VIOLATION|FAILED|INCONCLUSIVE|exit=|note:" ; done
+for p in "$@"; do VX_REPO=$d /verif/vx check $p --tier ${TIER:-quick} | grep -E "VIOLATION|FAILED|INCONCLUSIVE|exit=|note:" ; done
 rm -rf $d /var/tmp/krill-verif/mut-replay /var/tmp/krill-verif/mut-evidence
